@@ -20,6 +20,41 @@ PROPS = {
         assumptions=["no usize overflow in len * bit_width", "allocator never fails", "extend with a non-fitting value is not generated (it panics after pushing the good prefix)"],
         open=[],
     ),
+    "C01": dict(
+        claim="For every bit vector (any length, arbitrary garbage beyond len, extra backend words) the model builders of Rank9 and of the five RankSmall variants (generic in (NUM_U32S, COUNTER_WIDTH), admissibility of the five tuples decided over the table) establish counters equal to the specification prefix counts (absolute, packed relative, upper counts; no truncation of the 32-bit absolute counters for any length), and rank(p) = number of ones among the first min(p,len) bits for every p, rank_zero = p - rank, num_ones/num_zeros exact, never out of bounds; rank through any stack of wrappers is the base layer's rank. Model tied to the code by differential correspondence on all rank structures and ~60 compositions, with the real counter arrays (exported through cfg-gated accessors) compared byte for byte with the model's.",
+        note="Trusted: Lean kernel + {propext, Classical.choice, Quot.sound}; hand-written model + correspondence harness; ambassador delegation through wrapper stacks is modelled as 'first layer that answers' and validated only by the correspondence.",
+        lean=["SuxModel.Props.C01"],
+        runners=["ranksel"],
+        ops={"case", "bits", "build", "rank", "rank_zero", "num_ones", "num_zeros", "count_ones", "len", "index", "parts"},
+        trusted_base=["Rank9 / RankSmall models: SuxModel/RankSel/{Rank9,RankSmall}/Model.lean mirror src/rank_sel/{rank9,rank_small}.rs and the trait defaults of src/traits/rank_sel.rs"],
+        assumptions=["usize = 64 bits; lengths below 2^64", "vectors beyond 2^32 bits are covered by the theorems only (the quick generator stays below 2^20 bits)"],
+        open=[],
+    ),
+    "C18": dict(
+        claim="Partition theorem on the SigStore model (mirror of sig_store.rs: high_bits, new_online/new_offline, try_push, into_shard_store, both ShardIterator::next impls with equal/aggregate/split branches, borrowed and consuming): for every backend, signature width, pushed list and admissible (bucket bits, max shard bits, shard bits), iteration yields exactly 2^shard_bits shards, shard i is (as a multiset) the pushed pairs whose top shard_bits bits are i, shard_sizes[i] is its length, len is the number pushed, the union is the pushed multiset, borrowed iteration leaves the store unchanged and equals the consuming one; no panic, no uninitialised read. Model tied to the code by differential correspondence (online/offline, [u64;1]/[u64;2], u8/u64/EmptyVal, all triples with bits <= 6 quick / <= 10 thorough).",
+        note="Trusted: Lean kernel + {propext, Classical.choice, Quot.sound}; hand-written model + correspondence harness; binary file I/O is a parameter (a bucket file = the list of pairs written, read_exact returns a prefix, set_len(0) empties); usize = 64 bits; allocator never fails.",
+        lean=["SuxModel.Props.C18"],
+        runners=["sigstore"],
+        ops={"case", "new", "push", "pushes", "len", "max_shard_high_bits", "shard", "shard_sizes", "iter", "iter_take", "into_iter"},
+        trusted_base=["SigStore model: SuxModel/SigStore/Model.lean mirrors src/utils/sig_store.rs method by method; file backend = list of pairs (binary I/O a parameter)"],
+        assumptions=["bits < 64 (documented; the constructors panic otherwise in a checked build)", "offline: bucket bits < 31 (i32 loop counter in new_offline)", "file system / allocator never fail"],
+        open=[],
+    ),
+    "C20": dict(
+        claim="lines_spec: a full pass of a line lender yields exactly the lines of the (decoded) file per the independent spec splitLines/specItems; rewind_replays: for LineLender, Zstd/GzipLineLender (any decoder function) and FromIntoIterator, after ANY history of next/rewind calls, rewind + full pass yields exactly the items of the first pass. For lender::Take the statement is false (known finding D18): the replay is (items).take(n - #next calls) (take_rewind_items, take_rewind_counterexample, take_replay_complete_iff).",
+        note="Model tied to the code by differential correspondence on real Cursor/temp-file/gzip/zstd lenders incl. 64 KiB-1 MiB lines, CRLF, lone CR, invalid UTF-8, multi-block/member/frame streams. Trusted: Lean kernel + {propext, Classical.choice, Quot.sound}; decoders as parameters.",
+        lean=["SuxModel.Props.C20"],
+        runners=["lender"],
+        ops=None,
+        trusted_base=[
+            "Lender model SuxModel/Lender/Model.lean mirrors src/utils/lenders.rs and lender-0.3.2 adapters/take.rs",
+            "BufReader/Cursor/File = byte list + position; read_until/seek(Start(0)) semantics; no I/O errors (rewind never fails)",
+            "zstd/flate2 decoders are a parameter dec (compressed bytes from offset 0 -> plain bytes): theorems hold for every dec; correct decoding from a frame start is tested, not proved; GzDecoder reads the first member only",
+            "str::from_utf8 accepts exactly utf8Valid (RFC 3629 automaton), differentially tested",
+        ],
+        assumptions=["no I/O error during next/rewind", "compressed stream well-formed", "Take of a base lender (not Take of Take)"],
+        open=[],
+    ),
     "C06": dict(
         claim="Refinement theorem: every operation history on the BitVec model (word-level mirror of bit_vec.rs) yields exactly the observations of a Vec<bool>, index errors panic with state unchanged, no out-of-bounds access; lifted to all histories by induction. The model is tied to the code by differential correspondence on generated histories incl. dirty backends.",
         note="Trusted: Lean kernel + {propext, Classical.choice, Quot.sound}; the hand-written model and the correspondence harness (differential testing power); usize = 64 bits; allocator never fails.",
